@@ -71,9 +71,10 @@ class ParallelGradient:
         # They can therefore be calculated in advance
         self._thetaVals = np.empty(
             [eta_grid[0].size, self._nz, order+1, self._nq])
-        for i, r in enumerate(eta_grid[0]):
+        # The table is indexed by the local radial index, like self._bz
+        for i, r_i in enumerate(r):
             self._getThetaVals(
-                r, self._thetaVals[i], eta_grid, constants.iota, constants.R0)
+                r_i, self._thetaVals[i], eta_grid, constants.iota, constants.R0)
 
     def getCoeffsFirstDeriv(self, n: int):
         b = np.zeros(n)
